@@ -1,3 +1,4 @@
+import shutil
 """C20 - the Rust binding's repr(C) mirrors and extern "C" declarations against the C ABI, decided by
 EXECUTING probes on both sides of the boundary (DESIGN.md section 4, C20):
 
@@ -789,6 +790,57 @@ def feature_sets(brs_path):
                 defs.append('-D%s' % m.group(2) if m.group(3) == 'None' else '-D%s=%s' % (m.group(2), m.group(3)))
         feats.append((tag, want, defs))
     return feats
+
+
+def cmake_arm(ctx, outdir, viols, stats):
+    """build.rs has a second arm (feature `cmake`): it hands LIBA_REAL = 8 / 4 to the repository's CMake project, which writes the real width into a generated
+    configuration header (include/a.cmake.h.in -> a.cmake.h) that every source file includes through A_HAVE_H. That header is produced by CMake's
+    configure_file, not by the C preprocessor, so nothing else in this check ever sees it. Here CMake itself instantiates the template (configure step
+    only, a few seconds, both widths in parallel) and a probe compiled against the GENERATED header is executed: sizeof(a_real) must be the width the binding
+    uses for that feature set (seeded change C20-L: `#define A_SIZE_REAL @A_SIZE_REAL@` rewritten as `#cmakedefine`, which is gated on a CMake variable of
+    the macro's own name - the project's is LIBA_REAL - and leaves the macro undefined: the float binding meets a double library)."""
+    REPO = ctx['REPO']
+    info = stats.setdefault('cmake_arm', dict(ran=False))
+    if not os.path.exists(os.path.join(REPO, 'CMakeLists.txt')) or not os.path.exists(os.path.join(REPO, 'include', 'a.cmake.h.in')) or sh(['cmake', '--version']).returncode:
+        info['reason'] = 'no CMakeLists.txt / template / cmake next to the sources under test'
+        return
+    odir = os.path.join(outdir, 'cmake-arm')
+    os.makedirs(odir, exist_ok=True)
+    probe = os.path.join(odir, 'real.c')
+    with open(probe, 'w') as f:
+        f.write('#include <stdio.h>\n#include "a/a.h"\nint main(void) { printf("%zu\\n", sizeof(a_real)); return 0; }\n')
+
+    def one(real):
+        b = os.path.join(odir, 'b%d' % real)
+        shutil.rmtree(b, ignore_errors=True)
+        # the configure step may end in an error further down (scratch copies carry only src/, include/, CMakeLists.txt, cmake/): the header is written before
+        sh(['cmake', '-S', REPO, '-B', b, '-G', 'Ninja', '-DLIBA_REAL=%d' % real, '-DBUILD_TESTING=OFF'])
+        hdr = os.path.join(b, 'a.cmake.h')
+        if not os.path.exists(hdr):
+            return real, None, 'CMake did not write a.cmake.h'
+        exe = os.path.join(odir, 'real%d' % real)
+        r = sh(['gcc', '-O0', '-I' + os.path.join(REPO, 'include'), '-DA_HAVE_H="%s"' % hdr, probe, '-o', exe])
+        if r.returncode:
+            return real, None, 'probe does not compile against the generated header: ' + r.stdout[-300:]
+        rr = sh([exe])
+        return real, (int(rr.stdout.strip()) if rr.returncode == 0 and rr.stdout.strip().isdigit() else None), ''
+    from concurrent.futures import ThreadPoolExecutor
+    with ThreadPoolExecutor(max_workers=2) as ex:
+        res = list(ex.map(one, (8, 4)))
+    info['ran'] = True
+    info['measured'] = {}
+    for real, got, why in res:
+        tag = 'f64' if real == 8 else 'f32'
+        if got is None:
+            info['measured'][tag] = 'not measured: ' + why
+            continue
+        info['measured'][tag] = got
+        stats['evaluations'] += 1
+        stats['distinct'].add(('cmake-arm', real))
+        if got != real:
+            viols.append(dict(key='abi/build.rs/cmake-arm/c-real-width-differs-from-binding', config=tag,
+                              msg='CMake configured with LIBA_REAL=%d (what build.rs passes for the %s binding under the `cmake` feature) generates a configuration header under which sizeof(a_real) is %d'
+                                  % (real, tag, got)))
 
 
 def simulated_targets(ctx, outdir, viols, stats, brs_path):
@@ -1722,6 +1774,7 @@ def run(prop, tier, seed, outdir, replay, ctx):
         inconclusive.append(str(e)[:3000])
     try:
         simulated_targets(ctx, outdir, viols, stats, os.path.join(ctx['REPO'], 'build.rs'))
+        cmake_arm(ctx, outdir, viols, stats)
         for real, tag in widths:
             creal = real
             if brs is not None:
@@ -1755,7 +1808,7 @@ def run(prop, tier, seed, outdir, replay, ctx):
                     unexercised_wrappers=sorted(stats['unexercised_wrappers']), histories_per_struct_and_width=NHIST[tier],
                     wrapper_twin_calls={t: dict(sorted(d['counts'].items())) for t, d in stats['twin'].items()},
                     wrapper_twin_counterpart={n: c for d in stats['twin'].values() for n, c in sorted(d['cfn'].items())},
-                    wrapper_histories={t: d['histories'] for t, d in stats['twin'].items()}, simulated_target_predefines=stats.get('simulated_targets'), cross_target_layouts=stats.get('cross_targets'), sanitizer_reports=sum(1 for v in viols if 'sanitizer' in v['key']))
+                    wrapper_histories={t: d['histories'] for t, d in stats['twin'].items()}, simulated_target_predefines=stats.get('simulated_targets'), cmake_arm_of_build_rs=stats.get('cmake_arm'), cross_target_layouts=stats.get('cross_targets'), sanitizer_reports=sum(1 for v in viols if 'sanitizer' in v['key']))
     if replay:
         rp = json.load(open(replay))
         hit = [v for v in viols if v['key'] == rp['key']]
